@@ -38,6 +38,28 @@ pub fn located(sh: bool, bs: &[u8]) -> Option<(usize, usize, usize, usize)> {
 
 /// C04 on dlt_message
 pub fn parse_oracle(prop: &str, sh: bool, f: &Option<DltFilterConfig>, bs: &[u8], o: &mut Fails) {
+    if prop == "C14" && !sh && !bs.is_empty() {
+        // the header-type byte observed through dlt_message: fields as the bit layout prescribes
+        if let Some(Ok((_, ParsedMessage::Item(m)))) = parse_owned(bs, None, false) {
+            let b = bs[0];
+            let h = &m.header;
+            let ok = h.version == b >> 5
+                && (h.endianness == Endianness::Big) == (b & 2 != 0)
+                && h.has_extended_header == (b & 1 != 0)
+                && h.ecu_id.is_some() == (b & 4 != 0)
+                && h.session_id.is_some() == (b & 8 != 0)
+                && h.timestamp.is_some() == (b & 16 != 0);
+            if !ok {
+                o.push(("htyp_layout".into(), format!("HTYP {:#x} decoded as {:?}", b, h)));
+            }
+            if h.header_type_byte() != b {
+                o.push(("htyp_roundtrip".into(), format!("HTYP {:#x} re-encodes to {:#x}", b, h.header_type_byte())));
+            }
+        } else {
+            o.push(("htyp_layout".into(), format!("HTYP {:#x}: generated message did not parse", bs[0])));
+        }
+        return;
+    }
     if prop != "C04" {
         return;
     }
